@@ -26,6 +26,8 @@ func runC09(c *Ctx) {
 	c.Rule("R9.2", 34, "semantic validation is present, heard, and the sibling mapper sets agree")
 	c.Rule("R9.4", 1, "a count that does not fit into an int is rejected, not wrapped around")
 	c.Rule("R9.3", 3, "the escape list equals the documented one and is used on both sides")
+	c.Rule("R9.5", 20, "the combinator grammar equals the documented pattern grammar rule by rule")
+	checkRegexGrammarDocs(c, "R9.5")
 
 	pp := c.Pkg("internal/regex/parser")
 	if pp == nil {
